@@ -3,6 +3,7 @@ CONSTANTS
   Procs = {1, 2, 3}
   Keys = {"a", "b"}
   KeyPlans <- OneCallPlans
+  ZeroKeySets <- AnyZeroKeys
 INVARIANTS TypeOK OnceOnly ExactlyOnce SameResult WaitsOnlyOnSameKey IndependentKeys TokenConservation ClosedImpliesCached OneLoaderPerKey LoaderKeyOK
 PROPERTIES MapStable Termination EveryGetReturns AbsSpec
 CHECK_DEADLOCK FALSE
